@@ -281,7 +281,8 @@ def run(ctx):
     acts = ("GenCount", "GenCap", "GenRenorm", "GenRenormDeviates", "NbCountDirect", "NbScanInit", "NbScanStep",
             "NbScanEnd", "NbCap", "NbStatic", "NbRenorm", "ParseAuto", "ParseLq", "ResolveAbsorb", "InjectOpts",
             "Driver", "ClaimIsometry")
-    ctx.model_check("MC_C05", "MC_quick.cfg" if quick else "MC_thorough.cfg", name="truncation+dispatch", require_actions=acts)
+    res = ctx.model_check("MC_C05", "MC_quick.cfg" if quick else "MC_thorough.cfg", name="truncation+dispatch", require_actions=acts)
+    n_init = res.coverage.get("Init", (0, 0))[1]
     # self-tests of the model: without the named exemptions TLC must find the recorded deviations
     for cfg, inv in (("MC_selftest_renorm.cfg", "RenormLawGenericStrict"), ("MC_selftest_table.cfg", "TableSoundStrict")):
         r = T.run_tlc("MC_C05", cfg, ctx.spec_dir, workers=4, allow_violation=True, scratch=ctx.scratch)
@@ -312,10 +313,16 @@ def run(ctx):
     # ---- 3. S->C: the truncation grid of the model on svd / svd:eig / eigh, all implementations
     if quick:
         grid = U.trunc_grid(3, 3, U.CUTGRID_QUICK, (0, 1, 2, 9), (0, 1, 2, 3))
+    else:
+        grid = U.trunc_grid(4, 4, U.CUTGRID_THOROUGH, (0, 1, 2, 3, 9), (0, 1, 2, 3))
+    # the driver's grid is the model's grid: same number of cases as TLC's initial states
+    if len(grid) + len(table) != n_init:
+        raise MachineryError("case grid of the driver (%d + %d) differs from the model's initial states (%d)" % (len(grid), len(table), n_init))
+    ctx.extra["trunc_cases_in_model"] = len(grid)
+    if quick:
         pick = rng.choice(len(grid), size=min(len(grid), 900), replace=False)
         grid = [grid[i] for i in sorted(pick)]
     else:
-        grid = U.trunc_grid(4, 4, U.CUTGRID_THOROUGH, (0, 1, 2, 3, 9), (0, 1, 2, 3))
         pick = rng.choice(len(grid), size=min(len(grid), 24000), replace=False)
         grid = [grid[i] for i in sorted(pick)]
     forms = ("none", "both", "left", "right", "none", "U,sVH", "Us,VH", "auto", "lfactor", "s", "rfactor")
@@ -436,6 +443,19 @@ def run(ctx):
     ctx.sample({"svals": sv[0]})
     fails = ctx.validate("C05_Trace", "Trace.cfg", recs, name="split", ntraces=tid)
     fails += ctx.validate("C05_Trace", "Trace.cfg", agrees, name="agree", ntraces=0)
+    # self-test of the trace spec: a corrupted copy of an accepted observation must be rejected
+    badlines = {id(f["record"]) for f in fails}
+    good = next((r for r in recs if r["ev"] == "split" and id(r) not in badlines and r["exc"] == "" and r["method"] == "svd"
+                 and r["path"] == "numba" and r["e2"] >= 0 and r["hasL"] and r["hasR"] and r["cn"] > 0), None)
+    if good is None:
+        raise MachineryError("no accepted svd observation to corrupt")
+    corrupt = [dict(good, k=good["k"] + 1), dict(good, e2=good["e2"] + 1), dict(good, isoL=False, claimL=True), dict(good, dq=3, d2=good["d2"] + 2)]
+    cf = T.validate_trace("C05_Trace", "Trace.cfg", ctx.spec_dir, ctx.write_trace(corrupt, "corrupt"), scratch=ctx.scratch)[0]["fails"]
+    got = {(f["line"], f["clause"]) for f in cf}
+    want = {(1, "KeptIsMinimal"), (2, "ErrorHonest"), (3, "ClaimedIsometryTrue"), (4, "BestApprox")}
+    if not want <= got:
+        raise MachineryError("trace spec self-test: corrupted observations were not rejected: %s" % sorted(want - got))
+    ctx.extra["trace_selftest"] = "4 corrupted copies of an accepted record rejected: %s" % sorted(c for _, c in want)
     harness = [f for f in fails if f["clause"].startswith("HARNESS:")]
     if harness:
         raise MachineryError("the driver produced an ill-formed case: %s" % {k: harness[0]["record"].get(k) for k in ("ev", "method", "s", "mode", "cn", "cd", "m", "n")})
